@@ -142,6 +142,29 @@ var reEcho = regexp.MustCompile(`(?s)^Got unexpected echo in response to '([^\n]
 var reOutput = regexp.MustCompile(`(?s)^Got unexpected output from '([^\n]*)':\n(.*)$`)
 var reWM = regexp.MustCompile(`(?s)^write mem: unexpected result: (.*)$`)
 
+var abortHeads = []string{"Got unexpected output from '", "Got unexpected echo in response to '", "while waiting for prompt '",
+	"Missing prompt '", "write mem: "}
+
+// lastAbort: errlog.Abort prints its message when it is raised; if a deferred call aborts again
+// (Go: the new panic replaces the pending one) stderr holds both messages. The model's result is
+// the LAST abort, so the comparison uses the last message; n = number of messages printed.
+func lastAbort(msg string) (last string, n int) {
+	lines := strings.Split(msg, "\n")
+	start := 0
+	for i, l := range lines {
+		for _, h := range abortHeads {
+			if strings.HasPrefix(l, h) {
+				if i > 0 {
+					start = i
+				}
+				n++
+				break
+			}
+		}
+	}
+	return strings.Join(lines[start:], "\n"), n
+}
+
 // classifyAbort turns an abort message of the real code into the driver's rendering of the
 // model's Abort value.  errlog.PrintWithMarker drops ONE trailing line feed of the message; the
 // comparison does the same with the model's text (see normAbort).
